@@ -212,10 +212,89 @@ func runScript(t *testing.T, run *vt.Run, c vt.CaseID, rng *rand.Rand, gossip bo
 				return
 			}
 		}
+		// the same for a basic lifecycler that is observing its tokens (service Starting): the token it loses has to be
+		// replaced before it reports Running; judged at the first quiescent point at which the service is Running
+		type basicTheft struct {
+			in     *lcsim.Inst
+			stolen uint32
+			judged bool
+		}
+		var basicThefts []*basicTheft
+		stealBasic := func() {
+			for _, id := range ids {
+				in := id.cur()
+				if gossip || in == nil || in.Basic == nil || id.cfg.Observe <= 0 || in.Svc().State() != services.Starting {
+					continue
+				}
+				e, ok := curDesc().Ingesters[id.cfg.ID]
+				if !ok || len(e.Tokens) < 2 || len(e.Tokens) != id.cfg.NumTokens || fmt.Sprint(e.Tokens) != fmt.Sprint([]uint32(in.Basic.GetTokens())) {
+					continue
+				}
+				dup := false
+				for _, bt := range basicThefts {
+					dup = dup || bt.in == in
+				}
+				if dup {
+					continue
+				}
+				thefts++
+				tid := fmt.Sprintf("thief-%d", thefts)
+				stolen := uint32(0)
+				err := st.Client("thief").CAS(context.Background(), lcsim.Key, func(x interface{}) (interface{}, bool, error) {
+					d := ring.GetOrCreateRingDesc(x)
+					ve, ok := d.Ingesters[id.cfg.ID]
+					if !ok || len(ve.Tokens) < 2 {
+						return nil, false, nil
+					}
+					now := time.Now().Unix()
+					stolen = ve.Tokens[0]
+					ve.Tokens = append([]uint32(nil), ve.Tokens[1:]...)
+					d.Ingesters[id.cfg.ID] = ve
+					d.Ingesters[tid] = ring.InstanceDesc{Id: tid, Addr: tid, Zone: "z9", State: ring.ACTIVE, Timestamp: now, RegisteredTimestamp: now, Tokens: []uint32{stolen}}
+					return d, true, nil
+				})
+				synctest.Wait()
+				if err == nil && stolen != 0 {
+					stolenFrom[id.cfg.ID] = true
+					basicThefts = append(basicThefts, &basicTheft{in: in, stolen: stolen})
+					run.Count("tokens_stolen_during_basic_observe", 1)
+					log("token %d of %s (basic) moved to %s while it observes", stolen, id.cfg.ID, tid)
+				}
+				return
+			}
+		}
+		judgeBasicThefts := func() {
+			for _, bt := range basicThefts {
+				if bt.judged || bt.in.Svc().State() != services.Running {
+					continue
+				}
+				bt.judged = true
+				e, ok := curDesc().Ingesters[bt.in.Cfg.ID]
+				if !ok {
+					continue // removed by somebody else (auto-forget): nothing to judge
+				}
+				run.Count("basic_observe_thefts_judged", 1)
+				sortedUnique := true
+				for i := 1; i < len(e.Tokens); i++ {
+					sortedUnique = sortedUnique && e.Tokens[i-1] < e.Tokens[i]
+				}
+				holds := false
+				for _, tk := range e.Tokens {
+					holds = holds || tk == bt.stolen
+				}
+				if len(e.Tokens) != bt.in.Cfg.NumTokens || !sortedUnique || holds {
+					run.Violation(c, "basic-observe/lost-token-not-replaced", fmt.Sprintf("%s lost token %d to another instance while observing; it reports Running with tokens %v (configured %d)", bt.in.Writer, bt.stolen, e.Tokens, bt.in.Cfg.NumTokens), map[string]any{"actions": acts})
+				}
+			}
+		}
 		steps := 15 + rng.IntN(40)
 		for step := 0; step < steps; step++ {
+			judgeBasicThefts()
 			if rng.IntN(10) == 0 {
 				steal()
+			}
+			if rng.IntN(8) == 0 {
+				stealBasic()
 			}
 			id := ids[rng.IntN(n)]
 			in := id.cur()
